@@ -43,6 +43,10 @@ def main():
             import wbfam
 
             return wbfam.check(prop, a.tier)
+        if prop == "C15":
+            import batchfam
+
+            return batchfam.check(prop, a.tier)
         if prop in ("C12", "C17"):
             import cfgfam
 
